@@ -7,7 +7,9 @@ TIER=quick
 case "$1" in quick|thorough) TIER="$1"; shift;; esac
 S=/tmp/mutw
 mkdir -p $S
-rsync -a --delete --exclude target --exclude .git /repo/ $S/repo/
+# --checksum --no-times: a file restored after the previous patch gets a fresh mtime, so cargo rebuilds its crate
+# (with -a alone the restored file keeps /repo's old mtime and cargo keeps the previous mutant's object code)
+rsync -a --no-times --checksum --delete --exclude target --exclude .git /repo/ $S/repo/
 rsync -a --delete --exclude target --exclude .git --exclude seeded --exclude benign --exclude findings --exclude evidence /verif/ $S/verif/
 mkdir -p $S/verif/evidence
 sed -i "s#/repo/#$S/repo/#g" $S/verif/harness/Cargo.toml
